@@ -263,6 +263,20 @@ def run(repo, rep, tier):
     from props import _dbcopy
     _dbcopy.check_private_copy(repo, rep, 'writers', ce, 'an algorithm\'s notes depend on which peers were audited earlier in the same run (-T), not only on the algorithm and what was measured on this peer')
 
+    # ---- rule 5c: what a measured-attribute writer records for one algorithm is computed in that algorithm's iteration only ---------------
+    # (loop-carried dependence into the table writes of HostKeyTest.perform_test: a note list or measured value that survives from the previous
+    #  key type makes an algorithm's notes depend on an unrelated algorithm advertised beside it)
+    from props import _hostkey_rating
+    _pt, _cands, _carried = _hostkey_rating.loop_carried_into_table(repo)
+    rep.saw(_pt)
+    rep.floor('writers', 'per-key-type values flowing into table writes', len(_cands), 5)
+    for _v, _use, _w in _carried:
+        rep.check('writers', 'value %s written for a key type is computed in that key type\'s iteration' % _v, False, _use,
+                  'perform_test: `%s` can reach the table write of one host-key type with the value left by the previous type (it is not re-created in the iteration before it is read): the notes of an algorithm then depend on an unrelated algorithm probed before it' % _v,
+                  witness=_w, stmt='loop-carried %s' % _v)
+    if not _carried:
+        rep.ob('writers', 'no loop-carried value reaches the table writes of perform_test (%d values checked)' % len(_cands), True)
+
     # ---- rule 6: level ordering ---------------------------------------------------------------------------------------------------
     en = [n for n in walk_no_nested(oa) if isinstance(n, ast.For) and isinstance(n.iter, ast.Call) and call_name(n.iter) == 'enumerate']
     ok = len(en) == 1 and unparse(en[0].iter.args[0]) == "['fail', 'warn', 'info']" and unparse(en[0].target) == '(idx, level)'
